@@ -7,7 +7,7 @@ class's registration table to the member it aliases).
 """
 from .. import terms
 from .. import catalogue as cat
-from ..ast import strip, flat_stmts, calls
+from ..ast import strip, flat_stmts, calls, is_param, member_path
 from ..ir import walk
 from ..report import AnalysisBroken
 
@@ -35,19 +35,39 @@ def ctor_written_members(prog, cls, regmap, scalar):
     """member paths assigned during construction (ctor body + init list + init_var chain)"""
     from .c14 import ctor_of, init_var_of
     paths = set()
+    pointee = {}
     for r in prog.base_chain(cls):
         for f in prog.methods_of(r):
             if f.get('ctor'):
                 for i in f.inits:
                     if i.get('member'):
                         paths.add(i['member'])
+                        # member sub-object built by one of the repository's constructors: its own initialiser list assigns
+                        # the sub-members; a pointer sub-member initialised with the address of a reference parameter points
+                        # at whatever member of this object was passed for it
+                        e = strip(i.get('e'))
+                        if isinstance(e, dict) and e.get('k') == 'construct':
+                            for f2 in prog.methods_of(e.get('t', '')):
+                                if f2.get('ctor') and f2.sig == e.get('ctor'):
+                                    for i2 in f2.inits:
+                                        if not i2.get('member'):
+                                            continue
+                                        sub = '%s.%s' % (i['member'], i2['member'])
+                                        paths.add(sub)
+                                        e2 = strip(i2.get('e'), casts=True)
+                                        if isinstance(e2, dict) and e2.get('k') == 'un' and e2.get('op') == '&' and is_param(e2.get('e')):
+                                            k = strip(e2['e'])['i']
+                                            if k < len(e['args']):
+                                                mp = member_path(e['args'][k])
+                                                if mp and mp[0] == 'this':
+                                                    pointee[sub] = '.'.join(mp[1:])
                 E = terms.Evaluator(prog, dyn_class=cls, scalar=scalar, regmap=regmap, opaque=('register_var', 'register_vec'))
                 try:
                     E.run(f, arg_names=['ctorarg%d' % i for i in range(len(f.params))])
                 except RecursionError:
                     raise AnalysisBroken('constructor of %s too deep' % r)
                 paths |= set(E.trace.writes)
-    return paths
+    return paths, pointee
 
 
 def run(ctx, prog):
@@ -66,9 +86,8 @@ def run(ctx, prog):
         for cls, _, _ in ents:
             short = cat.short(cls)
             regs = cat.registrations(prog, cls)
-            regmap = {r['name']: '.'.join(r['path'][1:]) for r in regs if r['path'] and r['path'][0] == 'this'}
-            regpaths = set(regmap.values())
-            powerlaw = not regs and short == 'navierstokes_4d_compressible_powerlaw'
+            regmap = {r['name']: '.'.join(r['path'][1:]) for r in regs if r['name'] is not None and r['path'] and r['path'][0] == 'this'}
+            regpaths = set('.'.join(r['path'][1:]) for r in regs if r['path'] and r['path'][0] == 'this')
             evs = evaluator_overrides(prog, cls, scalar)
             results = {}
             W_all = {}
@@ -78,16 +97,12 @@ def run(ctx, prog):
                 results[(name, sig)] = (f, E.trace)
                 for pth, locs in E.trace.writes.items():
                     W_all.setdefault(pth, []).append((name, locs[0]))
-            ctor_w = ctor_written_members(prog, cls, regmap, scalar) if evs else set()
+            ctor_w, pointee = ctor_written_members(prog, cls, regmap, scalar) if evs else (set(), {})
             for (name, sig), (f, tr) in results.items():
                 n_eval += 1
                 key = '%s::%s|%s|%s' % (short, name, sig.replace(scalar, 'S'), sc)
                 # ---- P1
-                if powerlaw:
-                    # every Scalar member of the nsctpl object is a registered parameter (foreach_parameter enumerates them)
-                    bad = sorted(tr.writes)
-                else:
-                    bad = sorted(p for p in tr.writes if p in regpaths or p == '*unknown')
+                bad = sorted(p for p in tr.writes if p in regpaths or p == '*unknown')
                 sv = [c for c in tr.setvar_calls]
                 if sv and not bad:
                     bad = ['set_var("%s")' % c[0] for c in sv]
@@ -98,7 +113,9 @@ def run(ctx, prog):
                 probs = []
                 for pth, loc in tr.pre_reads.items():
                     base = pth.rstrip('*')
-                    if base in regpaths or powerlaw:
+                    if pth.endswith('*') and base in pointee and base not in W_all:
+                        pth = base = pointee[base]      # pointer member fixed at construction: the read is a read of its target
+                    if base in regpaths:
                         continue
                     if pth.startswith(('global:', 'const:')):
                         continue
